@@ -202,7 +202,7 @@ class Prop(PropBase):
     ID = "C24"
     tiers = {
         "quick": {"runs": 320, "selftest_runs": 4},
-        "thorough": {"runs": 6000, "selftest_runs": 32},
+        "thorough": {"runs": 14000, "selftest_runs": 32},
     }
     rule = ("one run = one (entries, address layout of 2-3 key bits, data layout) configuration driven for 80-240 cycles "
             "by a seeded phase plan (random / fill / drain / churn / samekey / sweep / idle); any subset of push, write, "
